@@ -269,8 +269,12 @@ class Seeds(es.E2EStream):
         # every seed must yield a candidate row (the best one is chosen among ALL of them)
         nrows = {}
         seen = set()
+        first_pid = {}
+        for c in out['capture']:       # the first-pass call of a query comes first; a second-pass fragment (+3/-2 label margins) can be the
+            if c['shift'] == 0:        # WHOLE molecule again (same label count, shift 0), aligned by a worker of the second pool
+                first_pid.setdefault(c['q'], c['pid'])
         for c in out['capture']:
-            if c['t'] == 'row' and c['shift'] == 0 and int(c['q']) in qs and c['nq'] == len(qs[int(c['q'])]['labels']):
+            if c['t'] == 'row' and c['shift'] == 0 and int(c['q']) in qs and c['nq'] == len(qs[int(c['q'])]['labels']) and c['pid'] == first_pid[c['q']]:
                 key = (c['pid'], c['q'], c['index'])
                 if key in seen:
                     continue
